@@ -4,7 +4,7 @@
    is proved (C17_float_views_dataflow) and the model is bit-exact against the code on every case of the
    correspondence run; the "few ulps" bound itself is checked there against exact rationals, not proved. *)
 From Coq Require Import ZArith Bool List.
-From HF Require Import MachInt GenConsts GenUnits Duration Epoch F64 DurationF64 Views SignedNs DurationP EpochP F64P ViewsP.
+From HF Require Import MachInt GenConsts GenUnits Duration Epoch F64 DurationF64 Views SignedNs DurationP EpochP F64P ViewsP Gregorian F64ExactP.
 Open Scope Z_scope.
 
 Local Notation D := 86400000000000 (only parsing).
@@ -45,6 +45,12 @@ Theorem C17_float_views_dataflow_partial : forall e u,
   to_unix e u = option_map (fun d => to_unit d u) (to_unix_duration e) /\
   (forall d, to_unit d u = fmul (to_seconds d) (fdiv (f_of_bits F64_ONE_BITS) (unit_in_seconds u))).
 Proof. exact float_views_dataflow. Qed.
+
+(* an integer Modified Julian Date, in any of the nine time scales, within 18 600 years of 1900: exactly (k - 15020) days
+   minus the scale's calendar offset (Flocq: the subtraction and the product by one day are exact) *)
+Theorem C17_from_mjd_integer : forall k t, Z.abs k <= 2 ^ 52 -> Z.abs (k - 15020) <= 6800000 ->
+  from_mjd_in_time_scale (f_of_Z k) t = mkE (dur_sub (unit_mul_i64 Day (k - 15020)) (gregorian_epoch_offset t)) t.
+Proof. exact from_mjd_integer. Qed.
 
 Example C17_nonvacuous :
   to_jde_tai_duration (mkE (mkD 0 0) TAI) = Some (mkD 66 377611200000000000) /\
